@@ -113,6 +113,8 @@ impl Future for StatusFuture {
     if self.0.is_closed() {
       Poll::Ready(NormalReturn::new(()))
     } else {
+      #[cfg(rxrust_verif)]
+      crate::verif_hooks::yield_point("StatusFuture::poll:checked-not-closed");
       self.0.waker.register(cx.waker());
       Poll::Pending
     }
